@@ -10,6 +10,10 @@ CLAIMED = {
          'Theorems over a Gallina mirror of UnicodeSubset.add/discard/|=/-=/&=/^=/complement: every reachable state denotes the mathematical set and stays sorted/non-overlapping (all op sequences, all sizes); canonical lists are extensional; the merged-canonical-form claim is refuted by a kernel-checked witness (known finding). Category/block tables are regenerated from /repo and unicodedata each run and re-proved equal on all 0x110000 code points by verified checkers.',
          'Trusted: Coq kernel+vm_compute; gen_c13.py table dump and the unicodedata reference dump; the hand model is tied to the code by literal list comparison on exhaustive small scopes and random op sequences (update/iter_code_points are modelled and compared but carry no theorem yet). No axioms (Print Assumptions: closed).',
          'DESIGN.md §6 C13'),
+ 'C06': ('Coq proof over integer kernels re-translated from source each run (T-expr) + dispatch model; correspondence on typed operand grids',
+         'idiv = truncated quotient, mod = remainder with the dividend\'s sign, a = (a idiv b)*b + (a mod b) for all finite operands of all four numeric types (exact values m*10^e, unbounded), division-by-zero table, fn:round = floor(x+1/2), floor/ceiling, round-half-to-even characterisation: proved for every input. The int kernels of mod/idiv are regenerated from /repo on every run, so an edit there breaks a proof obligation. Partial: finite double + - * div are hardware operations (not modelled); sign of zero from floor/ceiling and xs:float result type of div-by-zero are known findings.',
+         'Trusted: Coq kernel; py2coq translator (Python int=Z, //=Z.div, %=Z.modulo); modelled-not-verified externals: Decimal // and % truncate, math.fmod exact, float // exact floor for |q|<2^52, Decimal.quantize, int->float / Decimal->float promotion done by the harness with Python float(). No axioms.',
+         'DESIGN.md §6 C06'),
 }
 
 NOT_YET = {}
